@@ -330,12 +330,32 @@ def run_shard(ctx, binp, scn_file, i, n, only=None, after=None, skip=None, tag="
         env["VERIF_AFTER"] = str(after)
     if skip is not None:
         env["VERIF_SKIP"] = str(skip)
-    p = subprocess.run(["timeout", "1500", binp, "-test.run", "^TestC13Replay$", "-test.timeout", "1400s"], cwd=ctx.work, env=env,
-                       stdout=subprocess.PIPE, stderr=subprocess.STDOUT, text=True, errors="replace")
+    # the driver rewrites its marker at the start of every lifecycle (~25 ms each): a marker that stops changing means the
+    # test process is wedged (seen twice in ~600 000 replays, with even the Go runtime's timers dead); it is killed and
+    # handled like any other death (attributed, replayed alone, shard resumed)
     log = os.path.join(ctx.work, "go-shard-%d%s.log" % (i, tag))
-    with open(log, "w") as f:
-        f.write(p.stdout)
-    return {"rc": p.returncode, "out": p.stdout, "trace": outp, "marker": mark, "log": log}
+    stall = int(os.environ.get("VERIF_C13_STALL", "240"))
+    with open(log, "w") as lf:
+        p = subprocess.Popen([binp, "-test.run", "^TestC13Replay$", "-test.timeout", "3000s"], cwd=ctx.work, env=env,
+                             stdout=lf, stderr=subprocess.STDOUT)
+        t0 = last_change = time.time()
+        seen = None
+        while p.poll() is None:
+            time.sleep(1)
+            try:
+                m = os.stat(mark).st_mtime_ns
+            except OSError:
+                m = None
+            now = time.time()
+            if m != seen:
+                seen, last_change = m, now
+            if now - last_change > stall or now - t0 > 3100:
+                p.kill()
+                p.wait()
+                lf.write("\nc13.py: killed the driver: no progress for %ds (marker %s)\n" % (int(now - last_change), mark))
+                break
+    out = open(log, errors="replace").read()
+    return {"rc": p.returncode, "out": out, "trace": outp, "marker": mark, "log": log}
 
 
 def replay(ctx, binp, scns):
